@@ -834,7 +834,7 @@ fn check_transport(c: &TCase, rec: &CaseRec, tot: &Totals) -> Check {
 // ---------------------------------------------------------------------------------------------
 
 pub fn run(ctx: &mut Ctx) {
-    ctx.level = "exploration";
+    ctx.level = "fault_enumeration";
     ctx.rule = "flips: a genuine SRTP or SRTCP packet per case (all four profiles; RTP with CSRC/extension/padding, start SEQ boundary-biased so 0-3 accepted predecessors may cross 2^16); packets <= 160 bytes get every single-bit flip, every truncation length and 1..20 appended bytes, larger ones 96 sampled bit positions and 48 lengths; applied to the not-yet-delivered packet and to the last accepted one. interleave: C04's history generator (1-3 SSRCs, RTP and RTCP mixed, wraps, reordering, loss, duplicates) with 1..40 forgeries (11 mutation classes) derived from any genuine packet and inserted at generated positions; twin session sees the genuine packets only. transport: the same through RtpTransport::receive (one SSRC, RTP + PLI). Non-trivial = at least one forgery was processed before a genuine packet of the same SSRC that the twin accepts (flips: always, by construction); distinct by case digest.".into();
     ctx.assumptions = vec![
         "a forgery is a datagram that differs in at least one bit from every packet the key holder produced in the case; verbatim duplicates are treated as genuine traffic (rustrtc documents no replay list) and are shown to both twins".into(),
